@@ -152,8 +152,8 @@ type acctEval struct {
 	phi  map[*ssa.Phi]string
 	phiA map[*ssa.Phi]aff
 	// while a straight-line callee is interpreted inline: its parameters stand for the caller's arguments
-	paramSym map[*ssa.Parameter]string
-	paramAff map[*ssa.Parameter]aff
+	paramSym    map[*ssa.Parameter]string
+	paramAff    map[*ssa.Parameter]aff
 	inlineDepth int
 }
 
